@@ -49,12 +49,12 @@ class C35(vlib.Spec):
         for f in sorted(glob.glob(os.path.join(vlib.ROOT, "corpus", "C35", "*.json"))):
             cases.append(json.load(open(f)))
         cases += codec.gen_cases(rng, tier, n)
-        for _ in range(n // 10):
+        for _ in range(min(60, n // 10)):
             cases.append(codec.gen_emb(rng))
         return cases
 
     def n_cases(self, tier):
-        return 1200 if tier == "quick" else 10000
+        return 900 if tier == "quick" else 10000
 
     def to_coq(self, case, res):
         if case["k"] == "emb":
